@@ -60,11 +60,14 @@ def make_file(nb, blk, last):
 class Client:
     """Base: one UDP endpoint, an event list, helpers."""
 
-    def __init__(self, server, label):
+    def __init__(self, server, label, sock=None):
         self.server = server
         self.label = label
-        self.sock = socket.socket(socket.AF_INET, socket.SOCK_DGRAM)
-        self.sock.bind((NET.HOST, 0))
+        if sock is None:
+            sock = socket.socket(socket.AF_INET, socket.SOCK_DGRAM)
+            sock.bind((NET.HOST, 0))
+        self.sock = sock            # a given socket = an endpoint that had a transfer before
+        self.out_from = len(server.output())   # only what the server reports from now on is about this transfer
         self.addr = self.sock.getsockname()
         self.peer = (NET.HOST, server.port)
         self.events = []
@@ -108,8 +111,8 @@ class Download(Client):
     """RRQ; policy decides which ACKs are sent.  policy(client, burst) -> list of inputs, each
     ("ack", n) | ("err",) | ("wait", seconds) ; default: conformant cumulative ACK."""
 
-    def __init__(self, server, label, name, content, opts=(), policy=None, rcfg=None):
-        super().__init__(server, label)
+    def __init__(self, server, label, name, content, opts=(), policy=None, rcfg=None, sock=None):
+        super().__init__(server, label, sock)
         self.name, self.content, self.opts, self.policy = name, content, list(opts), policy
         self.blk, self.w, self.tmo = 512, 1, 5
         self.expected = 1           # next in-order block (absolute)
@@ -247,8 +250,8 @@ class Upload(Client):
     """WRQ; sends blocks 1..nb of `payload(id=i)`; policy may perturb.  Reads the target file on
     disk whenever an ACK arrives."""
 
-    def __init__(self, server, label, name, nb, last, opts=(), target=None, policy=None, rcfg=None):
-        super().__init__(server, label)
+    def __init__(self, server, label, name, nb, last, opts=(), target=None, policy=None, rcfg=None, sock=None):
+        super().__init__(server, label, sock)
         self.name, self.nb, self.last, self.opts = name, nb, last, list(opts)
         self.blk, self.w, self.tmo = 512, 1, 5
         self.target = target
@@ -349,6 +352,20 @@ class Upload(Client):
         self.done = True
 
 
+def silent_after(blocks, rounds, timeout_s):
+    """download policy: conformant for `blocks` blocks, then `rounds` silent intervals"""
+    def policy(c, burst):
+        if c.expected - 1 >= blocks and getattr(c, "silences", 0) < rounds:
+            c.silences = getattr(c, "silences", 0) + 1
+            c.policy_done = c.silences >= rounds
+            return [("wait", timeout_s)]
+        if getattr(c, "silences", 0) >= rounds and rounds >= 6:
+            c.done = True
+            return []
+        return [("ack", c.expected - 1)]
+    return policy
+
+
 def server_outcomes(server, clients, wait=1.0):
     """Matches the server's end-of-transfer lines to clients by endpoint: for each client that got
     as far as a transfer, appends an `exit` event if exactly one line for its address appeared."""
@@ -356,12 +373,14 @@ def server_outcomes(server, clients, wait=1.0):
     need = [c for c in clients if c.started]
     while time.time() < deadline:
         out = server.output()
-        if all(("%s:%d" % c.addr) in out.split("Running", 1)[-1] for c in need):
+        if all(any(l.startswith(("Sent ", "Received ", "Error ")) and l.rstrip().endswith("%s:%d" % c.addr)
+                   for l in out[c.out_from:].splitlines()) for c in need):
             break
         time.sleep(0.05)
-    out = server.output()
+    out_all = server.output()
     for c in need:
         tag = "%s:%d" % c.addr
+        out = out_all[c.out_from:]
         lines = [l for l in out.splitlines() if l.rstrip().endswith(tag) and (l.startswith("Sent ") or l.startswith("Received ") or l.startswith("Error "))]
         if len(lines) == 1:
             ok = not lines[0].startswith("Error ")
@@ -372,6 +391,8 @@ def server_outcomes(server, clients, wait=1.0):
             c.events.append(ev)
         elif len(lines) > 1:
             c.events.append({"e": "exit", "ok": "none", "exists": True})
+        else:
+            c.events.append({"e": "alive"})
 
 
 def run_clients(server, clients, rng=None):
